@@ -148,10 +148,10 @@ surv0_ctx_cancel(nni_aio *aio, void *arg, nng_err rv)
 	if (nni_list_active(&ctx->recv_queue, aio)) {
 		nni_list_remove(&ctx->recv_queue, aio);
 		nni_aio_finish_error(aio, rv);
-	}
-	if (ctx->survey_id != 0) {
-		nni_id_remove(&sock->surveys, ctx->survey_id);
-		ctx->survey_id = 0;
+		if (ctx->survey_id != 0) {
+			nni_id_remove(&sock->surveys, ctx->survey_id);
+			ctx->survey_id = 0;
+		}
 	}
 	nni_mtx_unlock(&sock->mtx);
 }
